@@ -135,6 +135,14 @@ class World:
         elif op == 9:   # as 7, with an async nested function
             self.ev(A, f"(def install-async! (fn [] (def x {v + 100}) (fn ^:async g [] (def x {v}) nil)))")
             self.ev(A, "((python/getattr (python/__import__ \"asyncio\") \"run\") ((install-async!)))"); self.model[(A, "x")] = v
+        elif op == 10:  # a plain Var that compiled code has already read is re-def'd as ^:redef; its root is then altered
+            self.ev(A, f"(def ^:redef x {v})")
+            self.ev(self.B, f"(alter-var-root (var al/x) (constantly {v + 50}))"); self.model[(A, "x")] = v + 50
+        elif op == 11:  # ... or re-def'd as ^:dynamic and then thread-bound
+            self.ev(A, f"(def ^:dynamic y {v})"); self.model[(A, "y")] = v
+            got = self.ev(A, f"(binding [y {v + 70}] [y (var-get (var y))])")
+            if list(got) != [v + 70, v + 70]:
+                return ("binding-of-newly-dynamic-var-not-visible", list(got), v + 70)
         elif op == 8:   # def of a closed-over local inside let / do
             self.ev(A, f"(let [z {v}] (do (def x z) nil))"); self.model[(A, "x")] = v
         return self.check()
@@ -173,7 +181,7 @@ if __name__ == "__main__":
     bad = []
     n = 0
     for tag, opts in modes.items():
-        for o0, v0, o1, v1 in _it.product(range(10), (1,), range(10), (3, 4)):
+        for o0, v0, o1, v1 in _it.product(range(12), (1,), range(12), (3, 4)):
             n += 1
             w = World(opts)
             r = w.check()
@@ -206,8 +214,8 @@ def run(rep, tier, seed):
         ok, line = env.replay_reproduces(path, timeout=900)
         r_ = Result("histories/def-alias-refer-alter-var-root (exhaustive concrete run)", INCONCLUSIVE, engine="concrete enumeration (not solver-decided)",
                     secs=_t.time() - t0,
-                    bound="all 200 two-step histories of def x / def y / def ^:redef r / alter-var-root (redef, dynamic) / redefine-behind-a-closure / def inside a called fn / "
-                          "def in an fn and again in a (sync / async) fn nested in it / def of a let local, x 3 option sets; "
+                    bound="all 288 two-step histories of def x / def y / def ^:redef r / alter-var-root (redef, dynamic) / redefine-behind-a-closure / def inside a called fn / "
+                          "def in an fn and again in a (sync / async) fn nested in it / def of a let local / re-def of an already-read plain Var as ^:redef or ^:dynamic, x 3 option sets; "
                           "after each step every spelling is read: bare, fully qualified, alias, refer, var, shadowing local, thread binding; private Var unreachable; "
                           "def-only histories agree between direct linking and var indirection")
         if ok:
